@@ -12,6 +12,12 @@ Space   : product-exhaustive over three families, register size n = 1..4 (thorou
                        {+-1e-15, +-5e-14, +-1e-7} (the last pair for the smaller n) on every set
                        of <= k entries (k = all entries for n <= 2), handed to the result
                        classes through a one-line backend.
+          (d) "wide" - the emu and out families on n = 5..10 (thorough 12) qubits for boundary outcomes
+                       (0, 1, 2^(n-1), 2^n-1, 0b0101.., 255, 256, 257) and H-masks (none, qubit 0, top
+                       qubit, all): view sizes, key order and bit order beyond one byte of outcomes;
+          (e) "job"  - ONE job of the default backend executed three times; after each execution every
+                       result obtained so far is judged again (per-subcircuit counts against the
+                       readouts held by that subcircuit).
 Oracle  : written here from the statement (key(b)[i] = bit i of b, qubit 0 leftmost and least
           significant): probabilities >= 0 and sum to 1; every *_by_str view has exactly the
           2^n keys in integer order with the value of *_by_int[b]; Readout.as_str has n
@@ -335,6 +341,8 @@ class C15(Check):
         q = tier == "quick"
         return {
             "max_qubits": 4 if q else 5,
+            "wide_qubits": [5, 10] if q else [6, 12],
+            "job_executions": 3,
             "max_output_list": 2 if q else 3,
             "max_qubits_for_longest_list": 4 if q else 3,
             "perturbed_entries": {"1": 2, "2": 4, "3": 2 if q else 3, "4": 1 if q else 2, "5": 2},
@@ -343,7 +351,39 @@ class C15(Check):
         }
 
     # -- enumeration ----------------------------------------------------------------
+    @staticmethod
+    def boundary_outcomes(n):
+        dim = 1 << n
+        alt = sum(1 << i for i in range(0, n, 2))
+        return sorted({0, 1, dim >> 1, dim - 1, alt, (dim >> 1) + 1} | {v for v in (255, 256, 257) if v < dim})
+
+    def wide_cases(self, tier):
+        lo, hi = self.bounds(tier)["wide_qubits"]
+        for n in range(lo, hi + 1):
+            dim = 1 << n
+            B = self.boundary_outcomes(n)
+            for h in (0, 1, dim >> 1, dim - 1):
+                for b in B:
+                    yield ("emu", n, b, h)
+            for shape in SHAPES[1]:
+                for forms in itertools.product("is", repeat=1):
+                    for v in B:
+                        yield ("out", n, shape, (v,), forms)
+            for shape in SHAPES[2]:
+                for forms in itertools.product("is", repeat=2):
+                    for vals in itertools.product(B[1:5], repeat=2):
+                        yield ("out", n, shape, vals, forms)
+
+    def job_cases(self, tier):
+        for n in range(1, 4 if tier == "quick" else 5):
+            dim = 1 << n
+            for h in range(dim):
+                for b in range(dim):
+                    yield ("job", n, b, h)
+
     def all_cases(self, tier):
+        yield from self.job_cases(tier)
+        yield from self.wide_cases(tier)
         bd = self.bounds(tier)
         nmax = bd["max_qubits"]
         for n in range(1, nmax + 1):
@@ -400,6 +440,16 @@ class C15(Check):
                         yield ("out", n, shape, vals[:i] + (vals[i] & ~(1 << bit),) + vals[i + 1:], forms)
             if n > 1 and all(v < (1 << (n - 1)) for v in vals):
                 yield ("out", n - 1, shape, vals, forms)
+        elif kind == "job":
+            _k, n, b, h = case
+            for i in range(n):
+                if (h >> i) & 1 and h & ~(1 << i):
+                    yield ("job", n, b, h & ~(1 << i))
+            for i in range(n):
+                if (b >> i) & 1:
+                    yield ("job", n, b & ~(1 << i), h)
+            if n > 1 and max(b, h) < (1 << (n - 1)):
+                yield ("job", n - 1, b, h)
         elif kind == "pert":
             _k, n, base, deltas = case
             for i in range(len(deltas)):
@@ -428,6 +478,8 @@ class C15(Check):
                         self._out(case, ctx)
                     elif kind == "pert":
                         self._pert(case, ctx, caught)
+                    elif kind == "job":
+                        self._job(case, ctx)
                     else:
                         raise ValueError(case)
         except OutOfFuel:
@@ -461,6 +513,62 @@ class C15(Check):
         if len(res.subcircuits) == 2:
             for k, sub in enumerate(res.subcircuits):
                 j.probabilities(sub, "subcircuit %d" % k, expect=expect[k])
+
+    def _job(self, case, ctx):
+        """one job, several executions: every result obtained so far stays self-consistent"""
+        _k, n, b, h = case
+        dim = 1 << n
+        nb = ~b & (dim - 1)
+        expect = [emu_distribution(n, b, h), emu_distribution(n, nb, 0)]
+        support = [set(x for x in range(dim) if vec[x] > 0) for vec in expect]
+        ctx.state(("job", n, b, h))
+        if h:
+            ctx.nontriv(case)
+        try:
+            circuit = self._parse(emu_text(n, b, h))
+            job = impl.UnitarySerializedEmulator()(impl.expand_macros(impl.fill_in_let(impl.expand_subcircuits(circuit))))
+        except Exception as e:  # noqa: BLE001
+            ctx.outcome("crash")
+            ctx.fail("crash", "creating the job: %s: %s" % (type(e).__name__, e))
+            return
+        results = []
+        for k in range(self.bounds("quick")["job_executions"]):
+            ctx.trace()
+            try:
+                results.append(job.execute())
+            except Exception as e:  # noqa: BLE001
+                ctx.fail("crash", "execution %d of one job: %s: %s" % (k + 1, type(e).__name__, e))
+                return
+            j = Judge(ctx, n)
+            for i, res in enumerate(results):
+                where = "after execution %d, result of execution %d" % (k + 1, i + 1)
+                try:
+                    ros, subs = list(res.readouts), list(res.subcircuits)
+                except Exception as e:  # noqa: BLE001
+                    j.fail("view-crash", "%s: %s: %s" % (where, type(e).__name__, e))
+                    continue
+                if len(ros) != 3 or len(subs) != 2:
+                    j.fail("readout-count", "%s: %d readouts, %d subcircuits (expected 3 and 2)" % (where, len(ros), len(subs)))
+                    continue
+                for jx, r in enumerate(ros):
+                    ctx.transition()
+                    v = (0, 0, 1)[jx]
+                    if r.index != jx or r.subcircuit is not subs[v]:
+                        j.fail("readout-subcircuit", "%s: readout %d has index %r / is attributed to %r" % (where, jx, r.index, r.subcircuit))
+                    elif int(r.as_int) not in support[v]:
+                        j.fail("readout-impossible", "%s: readout %d = %d has probability zero in subcircuit %d" % (where, jx, int(r.as_int), v))
+                    elif not any(x is r for x in subs[v].readouts):
+                        j.fail("subcircuit-readouts", "%s: readout %d is missing from the readouts of subcircuit %d" % (where, jx, v))
+                for v, sub in enumerate(subs):
+                    counts = [0] * dim
+                    for r in sub.readouts:
+                        if 0 <= int(r.as_int) < dim:
+                            counts[int(r.as_int)] += 1
+                    j.frequencies(sub, "%s, subcircuit %d" % (where, v), counts)
+                    j.probabilities(sub, "%s, subcircuit %d" % (where, v), expect=expect[v])
+            if j.bad:
+                break
+        ctx.outcome("job-basis" if h == 0 else "job-superposition")
 
     def _out(self, case, ctx):
         _k, n, shape, vals, forms = case
